@@ -231,6 +231,21 @@ theorem ops_target_other_unit_due_times (R : Run) (tp : Throughput)
     · intro hun
       rw [hb, ← hin, hun]; rfl
 
+/-- **sampler_sizes_conserved.**  For any capacity and any sequence of "n complete adds" / "one drain" — any sizes, far beyond
+    every constant in the code —: the sizes of the drained batches, the queue length and the number of reported drops of the
+    micro-step model are those of the count model, and they add up to the number of adds: one `Sampler.samples` hands out
+    everything that is buffered, however much that is. -/
+theorem sampler_sizes_conserved (cap : Nat) (es : List SBulk) :
+    (srun cap (expandBulk es) (SState.init Unit)).counts = sbulkRun cap es ∧
+    (sbulkRun cap es).batches.sum + (sbulkRun cap es).queue + (sbulkRun cap es).dropped = (calls (expandBulk es)).length := by
+  have h1 := sbulk_counts cap es (SState.init Unit) ⟨rfl, rfl, [], rfl⟩ (by simp [SState.init])
+  have h2 := sampler_exactly_once_under_preemption cap (expandBulk es)
+  refine ⟨by simpa [sbulkRun, SState.counts, SState.init] using h1, ?_⟩
+  have h3 : sbulkRun cap es = (srun cap (expandBulk es) (SState.init Unit)).counts := by
+    simpa [sbulkRun, SState.counts, SState.init] using h1.symm
+  rw [h3, ← h2.length_eq]
+  simp [SState.counts, List.length_flatten, Nat.add_assoc]
+
 /-- on-error=abort: a failed request never yields a sample (`execute_single` raises instead) -/
 theorem abort_policy (o : Outcome) (ops : Nat) (unit : Str) (m : Meta)
     (h : executeSingle true o = .ret ops unit m) : m.success = true := by
